@@ -10,6 +10,7 @@ Definition p1 : profile := Profile 1 10 [MsgSet SBank (Url 0 1) false].
 Definition p2 : profile := Profile 2 11 [MsgSet SBank (Url 2 0) false; MsgSet SCc (Url 3 0) false].
 Definition wex : world := world_of_list
   [Rs true true [(1, 100)] (RProfile p1); Rs true true [(2, 200)] ROpaque;
+   Rs true true [(1, 300)] ROpaque;
    Rs true true [] RUpToDate; Rs true true [] ROpaque;
    Rs true true [] (RProfile p2)].
 Definition opsex : list (nat * op) :=
@@ -21,10 +22,10 @@ Theorem examples_nonvacuous :
      = [ [ (Url 0 0, [], false); (Url 0 1, [(1, 100)], true) ];
          [];
          [ (Url 0 0, [], true) ];
-         [ (Url 0 0, [(1, 100); (2, 200)], false) ] ;
+         [ (Url 0 0, [(1, 100); (2, 200)], false); (Url 0 1, [(1, 100); (2, 200)], true) ] ;
          [ (Url 0 0, [(1, 100); (2, 200)], false) ] ]
   /\ map e_result (snd (run wex (init [cfg0; cfg1]) opsex))
-     = [OK (OAnswer 1); OK ODry; OK (OAnswer 2); Err Crash; Err Crash]
+     = [OK (OAnswer 1); OK ODry; OK (OAnswer 2); OK (OAnswer 4); Err Crash]
   /\ service_url p1 = Some (Url 0 1) /\ service_url p2 = None.
 Proof.
   split.
